@@ -87,12 +87,26 @@ class Spec:
     """forms: tuple of form names for a1..an; deps: tuple of names each a_i is defined from; f0: key of F0S;
     perm: permutation of the n+1 equations (index 0 = the der(s) equation)."""
 
-    def __init__(self, forms, deps, f0, perm):
+    def __init__(self, forms, deps, f0, perm, ieq=None):
         self.forms, self.deps, self.f0, self.perm = tuple(forms), tuple(deps), f0, tuple(perm)
         self.n = len(forms)
+        self.ieq = ieq  # None | "state" (s = 2 * p) | "alg" (a_n = 7 * s + u)
 
     def key(self):
-        return [list(self.forms), list(self.deps), self.f0, list(self.perm)]
+        return [list(self.forms), list(self.deps), self.f0, list(self.perm), self.ieq]
+
+    def unknowns(self):
+        return ["a%d" % (i + 1) for i in range(self.n)]
+
+    def init_eqs(self):
+        if self.ieq == "state":
+            return [("eq", V("s"), B("*", N(2), V("p")))]
+        if self.ieq == "alg":
+            return [("eq", V("a%d" % self.n), B("+", B("*", N(7), V("s")), V("u")))]
+        return []
+
+    def init_rows(self):
+        return [_lin_eq(e) for e in self.init_eqs()]
 
     def affine(self):
         return all(FORMS[f][2] != "ifelse" for f in self.forms)
@@ -107,7 +121,7 @@ class Spec:
         for i, (f, d) in enumerate(zip(self.forms, self.deps)):
             decls.append(Decl("a%d" % (i + 1)))
             eqs.append(FORMS[f][0](V("a%d" % (i + 1)), V(d)))
-        return Model("M", decls, [eqs[i] for i in self.perm])
+        return Model("M", decls, [eqs[i] for i in self.perm], init_eqs=self.init_eqs())
 
     def solution(self, s, u):
         """Unique solution for given state and input: dict name -> Fraction."""
@@ -127,6 +141,111 @@ class Spec:
         for e in m.eqs:
             out.append(_lin_eq(e))
         return out
+
+
+POOL = {
+    "alias": lambda v, w: ("eq", v, w),
+    "alias-neg": lambda v, w: ("eq", v, neg(w)),
+    "alias-sum0": lambda v, w: ("eq", B("+", v, w), N(0)),
+    "alias-diff0": lambda v, w: ("eq", B("-", w, v), N(0)),
+    "base": lambda v, w: ("eq", v, B("+", B("*", N(2), w), N(1))),
+    "shift": lambda v, w: ("eq", v, B("-", w, N(3))),
+    "const": lambda v, w: ("eq", v, N(3)),
+}
+
+
+class FreeSpec:
+    """A square affine model that need not be triangular: der(s) = a1 plus k equations, each one POOL form
+    applied to an ordered pair of the unknowns a1..ak (or, for "const", to one unknown).  Only non-singular
+    systems are enumerated (see free_specs), so for any (s, u) the solution is unique."""
+
+    ieq = None
+
+    def __init__(self, k, items, perm):
+        self.k, self.items, self.perm = k, tuple(tuple(x) for x in items), tuple(perm)
+        self.n = k
+
+    def key(self):
+        return ["free", self.k, [list(x) for x in self.items], list(self.perm)]
+
+    def affine(self):
+        return True
+
+    def unknowns(self):
+        return ["a%d" % (i + 1) for i in range(self.k)]
+
+    def equations(self):
+        eqs = [("eq", ("der", V("s")), V("a1"))]
+        for form, i, j in self.items:
+            eqs.append(POOL[form](V("a%d" % i), V("a%d" % j)))
+        return eqs
+
+    def model(self):
+        decls = [
+            Decl("s", mods={"start": N(1)}), Decl("u", prefix="input"),
+            Decl("p", prefix="parameter", value=N(2)), Decl("p2", prefix="parameter", value=B("*", N(3), V("p"))),
+            Decl("k", prefix="constant", value=N("1.5")),
+        ]  # fmt: skip
+        decls += [Decl(n) for n in self.unknowns()]
+        eqs = self.equations()
+        return Model("M", decls, [eqs[i] for i in self.perm])
+
+    def rows(self):
+        return [_lin_eq(e) for e in self.model().eqs]
+
+    def init_rows(self):
+        return []
+
+    def solution(self, s, u):
+        rows = self.rows() + [{"s": Fraction(1), 1: -Fraction(s)}, {"u": Fraction(1), 1: -Fraction(u)}]
+        cols = ["s", "u", "der(s)"] + self.unknowns() + [1]
+        rr, _ = L.rref(rows, cols)
+        env = dict(PVAL)
+        for r in rr:
+            piv = next(c for c in cols if c in r)
+            if piv == 1:
+                raise ValueError("inconsistent system")
+            env[piv] = -r.get(1, Fraction(0))
+        return env
+
+
+def make_spec(key):
+    if key and key[0] == "free":
+        return FreeSpec(key[1], key[2], key[3])
+    return Spec(*key)
+
+
+def free_specs(tier):
+    """Every set of k POOL equations over the ordered pairs of k unknowns (k = 2; 3 with the alias forms only,
+    thorough: all forms) whose system, together with der(s) = a1, is non-singular in (der(s), a1..ak)."""
+    out = []
+    for k in (2, 3):
+        forms = list(POOL) if (k == 2 or tier == "thorough") else ["alias", "alias-neg"]
+        pool = []
+        for f in forms:
+            if f == "const":
+                pool += [(f, i, i) for i in range(1, k + 1)]
+            else:
+                pool += [(f, i, j) for i in range(1, k + 1) for j in range(1, k + 1) if i != j]
+        for items in itertools.combinations(pool, k):
+            # two equations over the same unordered pair in every k = 3 system would be a 2-system plus one: allowed
+            sp = FreeSpec(k, items, tuple(range(k + 1)))
+            rows = sp.rows()
+            unk = ["der(s)"] + sp.unknowns()
+            sub = [{c: v for c, v in r.items() if c in unk} for r in rows]
+            if L.rank(sub) < len(unk):
+                continue
+            triangular = all(f in ("const",) for f, _, _ in items)
+            if triangular:
+                continue
+            ident, rev = tuple(range(k + 1)), tuple(reversed(range(k + 1)))
+            if tier == "quick":
+                perms = [ident, rev] if k == 2 else [ident]
+            else:
+                perms = list(itertools.permutations(range(k + 1))) if k == 2 else [ident, rev]
+            for pm in perms:
+                out.append(FreeSpec(k, items, pm))
+    return out
 
 
 def _lin(n):
@@ -317,19 +436,19 @@ def frac(x):
     return Fraction(float(x)).limit_denominator(10**6)
 
 
-def affine_rows(model, vals):
-    """Rows of the simplified residual as exact rationals, or None if it is not affine in the coordinates."""
+def affine_rows(model, vals, initial=False):
+    """Rows of the simplified (initial) residual as exact rationals, or None if it is not affine in the coordinates."""
     cs = coords(model)
     zero = {c: 0.0 for c in cs}
-    b = residual_at(model, zero, vals)
+    b = residual_at(model, zero, vals, initial)
     cols = []
     for c in cs:
         pt = dict(zero)
         pt[c] = 1.0
-        cols.append(residual_at(model, pt, vals) - b)
+        cols.append(residual_at(model, pt, vals, initial) - b)
     probe = {c: float(i + 2) * (-1) ** i for i, c in enumerate(cs)}
     pred = b + sum(col * probe[c] for c, col in zip(cs, cols)) if cs else b
-    if not np.allclose(residual_at(model, probe, vals), pred, rtol=1e-9, atol=1e-9):
+    if not np.allclose(residual_at(model, probe, vals, initial), pred, rtol=1e-9, atol=1e-9):
         return None
     rows = []
     for i in range(len(b)):
@@ -430,6 +549,18 @@ def plan(tier):
         for pm in [ident, rev] if tier == "quick" else rots + [rev]:
             sets = "core" if tier == "quick" or pm != ident else "near"
             out.append((Spec(fs, deps[0], "a-last", pm), sets))
+    # (D) non-triangular systems: alias cycles with inconsistent signs, mutually defined unknowns
+    for sp in free_specs(tier):
+        out.append((sp, "core"))
+    # (E) an initial equation next to the DAE (<= 1 special form, chain dependencies, source order)
+    for nspecial in (0, 1):
+        for pos in itertools.combinations(range(n), nspecial):
+            for fs in itertools.product(SPECIAL, repeat=nspecial):
+                forms = ["base"] * n
+                for p_, f in zip(pos, fs):
+                    forms[p_] = f
+                for ieq in ("state", "alg"):
+                    out.append((Spec(forms, deps[0], "a-last", ident, ieq), "near" if tier == "thorough" or nspecial == 0 or pos == (n - 1,) else "core"))
     return out
 
 
